@@ -692,6 +692,33 @@ func (r *run) bcout(c, u, ref int, ts []tok, pre bool) {
 	}, exp, nil, nil, check)
 }
 
+// vbcout: precompile bridgeCall carrying FX as msg.value (plus, possibly, ERC-20 tokens)
+func (r *run) vbcout(c, u, ref, v int, ts []tok) {
+	w := r.w
+	exp := map[[2]int]int{{u, 0}: -v}
+	tokens := []common.Address{}
+	amounts := []*big.Int{}
+	for _, t := range ts {
+		exp[[2]int{u, t.g}] -= t.n
+		tokens = append(tokens, w.Groups[t.g].Erc20)
+		amounts = append(amounts, bi(t.n))
+	}
+	data, err := crosschaintypes.GetABI().Pack("bridgeCall", r.chain(c), w.Users[ref].Address(), tokens, amounts, common.Address{}, []byte{}, big.NewInt(0), []byte{})
+	if err != nil {
+		panic(err)
+	}
+	tss := tokStr(ts)
+	if len(ts) == 0 {
+		tss = "-"
+	}
+	r.exec(fmt.Sprintf("vbcout %d 0 %d %d %d %s", c, u, ref, v, tss), func() string {
+		if v == 0 {
+			return "err:no value" // without msg.value this is the plain precompile bridge call (op bcout)
+		}
+		return w.CallEVM(w.Users[u].Address(), crosschaintypes.GetAddress(), bi(v), data)
+	}, exp, nil, nil, nil)
+}
+
 type callRec struct {
 	c, nonce int
 	refund   int // holder index
@@ -1287,6 +1314,24 @@ func (r *run) randomOp() {
 	case k < 76:
 		c := rng.Intn(len(bx.Chains))
 		pre := rng.Intn(2) == 0
+		if pre && rng.Intn(3) == 0 { // FX travels as msg.value, alone or with ERC-20 tokens
+			if rng.Intn(6) > 0 {
+				c = 0 // FX is bridged on eth only
+			}
+			var ts []tok
+			if rng.Intn(3) > 0 {
+				ts = r.tokensOf(c, u, true, true)
+			}
+			v := r.amount(r.baseBal(u, 0))
+			if v > 50 {
+				v = 1 + rng.Intn(50)
+			}
+			if rng.Intn(12) == 0 {
+				v = 0
+			}
+			r.vbcout(c, u, rng.Intn(bx.NUsers), v, ts)
+			return
+		}
 		r.bcout(c, u, rng.Intn(bx.NUsers), r.tokensOf(c, u, pre, pre), pre)
 	case k < 84:
 		calls := r.outCalls()
